@@ -199,21 +199,43 @@ def side(circ, kern, lay):
 
 
 class Collector:
+    """Counts evaluations and records failures.
+
+    Index clauses of ONE qubit are evaluated in stream order with chain=True: an index that is off shifts
+    everything behind it, so only the first failing index clause of a qubit is recorded as a failure (the
+    root); the keys of the clauses failing behind it are listed in its "consequences".  Clauses that do not
+    depend on absolute indices are recorded independently; chain="dependent" clauses need correct indices
+    to be meaningful and are recorded only while the qubit has no root failure.
+    """
+
     def __init__(self, case):
         self.case = case
         self.failures = []
         self.evaluations = 0
         self.per_clause = {}
+        self._root = None
 
-    def check(self, clause_id, ok, key, clause, function, detail, observed, required):
+    def new_scope(self):
+        self._root = None
+
+    def check(self, clause_id, ok, key, clause, function, detail, observed, required, chain=False):
         self.evaluations += 1
         self.per_clause[clause_id] = self.per_clause.get(clause_id, 0) + 1
-        if not ok:
-            w = dict(self.case)
-            w.update(detail)
-            self.failures.append({"key": f"{PROP}:{key}", "clause": clause, "function": function, "witness": w,
-                                  "observed": observed, "required": required,
-                                  "replay_args": {"case": self.case, "key": f"{PROP}:{key}"}})
+        if ok:
+            return
+        full = f"{PROP}:{key}"
+        if chain and self._root is not None:
+            if full not in self._root["consequences"] and full != self._root["key"]:
+                self._root["consequences"].append(full)
+            return
+        w = dict(self.case)
+        w.update(detail)
+        rec = {"key": full, "clause": clause, "function": function, "witness": w, "observed": observed, "required": required,
+               "consequences": [], "replay_args": {"case": self.case, "key": full}}
+        w["clauses_failing_behind_it_on_the_same_qubit"] = rec["consequences"]
+        self.failures.append(rec)
+        if chain is True:
+            self._root = rec
 
 
 FN_CIRCUIT = "qce_circuit.library.repetition_code.circuit_constructors.construct_repetition_code_multi_round_circuit"
@@ -248,13 +270,8 @@ def evaluate_experiment(case):
         ker = observe_kernel(kernel, qubit_id, rounds)
         head, blocks = segment(obs)
 
-        # -- clause: number of acquisitions per ancilla == kernel cycle length
         count = len(obs["all"])
-        who = side(count, ker["length"], lay["length"])
-        col.check("count", who == "agree", f"cycle-length:{who}:{shp}",
-                  "number of acquisitions of the ancilla in the circuit == RepetitionExperimentKernel.kernel_cycle_length "
-                  "(== sum(1 + max(r, 1) for r in rounds) + 6)",
-                  pick_fn(who), det, {"circuit_acquisitions": count, "kernel_cycle_length": ker["length"]}, {"layout_length": lay["length"]})
+        col.new_scope()
 
         # -- the circuit's indices of the ancilla are its own stream positions 0..count-1, each tagged once,
         #    and they follow the chronological order of the measurements (read from start times)
@@ -262,17 +279,12 @@ def evaluate_experiment(case):
             sorted(i for t in TAGS for i in obs["by_tag"][t]) == list(range(count))
         col.check("stream", ok_range, f"circuit-stream:ancilla-indices-are-not-0..n-1-tagged-once:{shp}",
                   "the ancilla's acquisition indices are 0..n-1, every one carries exactly one of the tags heralded/parity/final, the first is heralded",
-                  FN_CIRCUIT, det, {"all": obs["all"], "by_tag": obs["by_tag"]}, {"all": list(range(count))})
+                  FN_CIRCUIT, det, {"all": obs["all"], "by_tag": obs["by_tag"]}, {"all": list(range(count))}, chain=True)
         chrono_idx = [i for i, _t, _p in obs["chrono"]]
         col.check("stream", chrono_idx == sorted(chrono_idx) and len(chrono_idx) == count,
                   f"circuit-stream:index-order-differs-from-chronological-order:{shp}",
                   "acquisition indices of the ancilla increase with the start time of the measurement",
                   FN_CIRCUIT, det, {"indices_in_time_order": chrono_idx}, {"indices_in_time_order": sorted(chrono_idx)})
-
-        # -- number of blocks: len(rounds) experiment blocks + 3 calibration points
-        col.check("blocks", len(blocks) == n + 3, f"blocks:number-of-heralded-blocks:{shp}",
-                  "the ancilla has len(rounds) + 3 heralded acquisitions (one per block, one per calibration point)",
-                  FN_CIRCUIT, det, {"heralded_blocks": len(blocks)}, {"heralded_blocks": n + 3})
 
         # -- per experiment block
         for k, r in enumerate(rounds):
@@ -287,7 +299,7 @@ def evaluate_experiment(case):
             who = side(c_her, kb["heralded"], lb["heralded"])
             col.check("heralded", c_her == kb["heralded"] and who != "both-deviate-from-layout", f"heralded:{who}:{pos}",
                       "index of the block's 'heralded' acquisition == get_heralded_cycle_acquisition_indices(ancilla, rounds[k])",
-                      pick_fn(who), bdet, {"circuit": c_her, "kernel": kb["heralded"]}, {"layout": lb["heralded"]})
+                      pick_fn(who), bdet, {"circuit": c_her, "kernel": kb["heralded"]}, {"layout": lb["heralded"]}, chain=True)
             if r == 0:
                 # documented difference: exactly one acquisition, the block's FINAL measurement of the ancilla
                 # (tag 'final'; the kernel's get_final_measurement_index has the documented guard clause for
@@ -307,7 +319,7 @@ def evaluate_experiment(case):
                           "0-round block: the circuit measures the ancilla exactly once after the heralded acquisition (its 'final' "
                           "measurement); the kernel reports no stabilizer/projected index for it",
                           pick_fn(who), bdet, {"circuit": c_body, "kernel_stabilizer_and_projected": kb["stabilizer_and_projected"],
-                                               "kernel_projected": kb["projected"]}, {"circuit_index": lb["unreported"], "kernel": []})
+                                               "kernel_projected": kb["projected"]}, {"circuit_index": lb["unreported"], "kernel": []}, chain=True)
                 continue
             # parity <-> stabilizer and projected
             c_par = [i for i, _ in c_body]
@@ -316,13 +328,13 @@ def evaluate_experiment(case):
             col.check("parity", tags_ok and c_par == kb["stabilizer_and_projected"] and who != "both-deviate-from-layout",
                       f"parity-vs-stabilizer-and-projected:{who}:{zero}:{pos}",
                       "indices of the block's 'parity' acquisitions (in order) == get_stabilizer_and_projected_cycle_acquisition_indices(ancilla, rounds[k])",
-                      pick_fn(who), bdet, {"circuit": c_body, "kernel": kb["stabilizer_and_projected"]}, {"layout": lb["stabilizer_and_projected"]})
+                      pick_fn(who), bdet, {"circuit": c_body, "kernel": kb["stabilizer_and_projected"]}, {"layout": lb["stabilizer_and_projected"]}, chain=True)
             c_proj = c_par[-1:] if tags_ok else None
             who = side(c_proj, kb["projected"], lb["projected"])
             col.check("projected", c_proj == kb["projected"] and who != "both-deviate-from-layout",
                       f"last-parity-vs-projected:{who}:{zero}:{pos}",
                       "index of the block's last 'parity' acquisition == get_projected_cycle_acquisition_indices(ancilla, rounds[k])",
-                      pick_fn(who), bdet, {"circuit": c_proj, "kernel": kb["projected"]}, {"layout": lb["projected"]})
+                      pick_fn(who), bdet, {"circuit": c_proj, "kernel": kb["projected"]}, {"layout": lb["projected"]}, chain=True)
 
         # -- calibration points
         chrono_by_index = {i: (t, p) for i, t, p in obs["chrono"]}
@@ -336,19 +348,31 @@ def evaluate_experiment(case):
             col.check("calibration-heralded", c_her == kc["heralded"] and who != "both-deviate-from-layout",
                       f"calibration-heralded:{who}:state-{s}",
                       "index of the calibration point's 'heralded' acquisition == get_heralded_calibration_acquisition_indices(ancilla, state)",
-                      pick_fn(who), sdet, {"circuit": c_her, "kernel": kc["heralded"]}, {"layout": lc["heralded"]})
+                      pick_fn(who), sdet, {"circuit": c_her, "kernel": kc["heralded"]}, {"layout": lc["heralded"]}, chain=True)
             who = side(c_fin, kc["final"], lc["final"])
             col.check("calibration-final", c_fin == kc["final"] and who != "both-deviate-from-layout",
                       f"calibration-final:{who}:state-{s}",
                       "index of the calibration point's 'final' acquisition == get_projected_calibration_acquisition_indices(ancilla, state)",
-                      pick_fn(who), sdet, {"circuit": blk[1:], "kernel": kc["final"]}, {"layout": lc["final"]})
+                      pick_fn(who), sdet, {"circuit": blk[1:], "kernel": kc["final"]}, {"layout": lc["final"]}, chain=True)
             # the acquisition the kernel calls "state s" is preceded by the preparation of state s
             idx = kc["final"][0] if len(kc["final"]) == 1 else None
             seen = chrono_by_index.get(idx, (None, None))[1]
             col.check("calibration-state", seen == STATE_PREP[s], f"calibration-state-preparation:circuit-prepares-other-state:state-{s}",
                       "between the heralded and the final acquisition that the kernel reports for calibration state s the circuit "
                       "applies exactly the preparation of state s on that qubit ([] / [Rx180] / [Rx180, Rx180ef])",
-                      FN_CALIB, sdet, {"pulses_before_index": idx, "pulses": seen}, {"pulses": STATE_PREP[s]})
+                      FN_CALIB, sdet, {"pulses_before_index": idx, "pulses": seen}, {"pulses": STATE_PREP[s]}, chain="dependent")
+
+        # -- number of blocks: len(rounds) experiment blocks + 3 calibration points
+        col.check("blocks", len(blocks) == n + 3, f"blocks:number-of-heralded-blocks:{shp}",
+                  "the ancilla has len(rounds) + 3 heralded acquisitions (one per block, one per calibration point)",
+                  FN_CIRCUIT, det, {"heralded_blocks": len(blocks)}, {"heralded_blocks": n + 3}, chain=True)
+
+        # -- clause: number of acquisitions per ancilla == kernel cycle length
+        who = side(count, ker["length"], lay["length"])
+        col.check("count", who == "agree", f"cycle-length:{who}:{shp}",
+                  "number of acquisitions of the ancilla in the circuit == RepetitionExperimentKernel.kernel_cycle_length "
+                  "(== sum(1 + max(r, 1) for r in rounds) + 6)",
+                  pick_fn(who), det, {"circuit_acquisitions": count, "kernel_cycle_length": ker["length"]}, {"layout_length": lay["length"]}, chain=True)
 
     # -- informative only (the statement is per ANCILLA): data qubits, used for a probe in main
     for qubit_id in desc.data_qubit_ids:
@@ -409,10 +433,7 @@ def evaluate_calibration(case):
                   FN_CALIB, det, {"all": obs["all"], "chrono": chrono_idx, "blocks": len(blocks)}, {"blocks": n_states})
         for name, klen, k_her, k_fin in kernels:
             fn = f"qce_circuit.structure.acquisition_indexing.kernel_calibration.{name}"
-            who = side(count, klen, lay["length"])
-            col.check("calib-count", count == klen and who != "both-deviate-from-layout", f"calibration-circuit:length:{name}:{who}:{case['type']}",
-                      f"acquisitions per qubit of the calibration circuit == {name}.stop_index - start_index + 1",
-                      fn if who.startswith("kernel") else FN_CALIB, det, {"circuit": count, "kernel": klen}, {"layout": lay["length"]})
+            col.new_scope()
             for s in range(n_states):
                 blk = blocks[s] if s < len(blocks) else []
                 c_her = [i for i, t in blk[:1]]
@@ -422,17 +443,21 @@ def evaluate_calibration(case):
                 col.check("calib-heralded", c_her == k_her[s] and who != "both-deviate-from-layout",
                           f"calibration-circuit:heralded:{name}:{who}:state-{s}",
                           f"index of the 'heralded' acquisition of calibration state s == {name} heralded getter",
-                          fn if who.startswith("kernel") else FN_CALIB, sdet, {"circuit": c_her, "kernel": k_her[s]}, {"layout": lay["calibration"][s]["heralded"]})
+                          fn if who.startswith("kernel") else FN_CALIB, sdet, {"circuit": c_her, "kernel": k_her[s]}, {"layout": lay["calibration"][s]["heralded"]}, chain=True)
                 who = side(c_fin, k_fin[s], lay["calibration"][s]["final"])
                 col.check("calib-final", c_fin == k_fin[s] and who != "both-deviate-from-layout",
                           f"calibration-circuit:final:{name}:{who}:state-{s}",
                           f"index of the 'final' acquisition of calibration state s == {name} state getter",
-                          fn if who.startswith("kernel") else FN_CALIB, sdet, {"circuit": blk[1:], "kernel": k_fin[s]}, {"layout": lay["calibration"][s]["final"]})
+                          fn if who.startswith("kernel") else FN_CALIB, sdet, {"circuit": blk[1:], "kernel": k_fin[s]}, {"layout": lay["calibration"][s]["final"]}, chain=True)
                 idx = k_fin[s][0] if len(k_fin[s]) == 1 else None
                 seen = chrono_by_index.get(idx, (None, None))[1]
                 col.check("calib-state", seen == STATE_PREP[s], f"calibration-circuit:state-preparation:{name}:circuit-prepares-other-state:state-{s}",
                           "the acquisition the kernel reports for state s is preceded (since the heralded one) by exactly the preparation of state s",
-                          FN_CALIB, sdet, {"pulses_before_index": idx, "pulses": seen}, {"pulses": STATE_PREP[s]})
+                          FN_CALIB, sdet, {"pulses_before_index": idx, "pulses": seen}, {"pulses": STATE_PREP[s]}, chain="dependent")
+            who = side(count, klen, lay["length"])
+            col.check("calib-count", count == klen and who != "both-deviate-from-layout", f"calibration-circuit:length:{name}:{who}:{case['type']}",
+                      f"acquisitions per qubit of the calibration circuit == {name}.stop_index - start_index + 1",
+                      fn if who.startswith("kernel") else FN_CALIB, det, {"circuit": count, "kernel": klen}, {"layout": lay["length"]}, chain=True)
     sample = {"input": case, "qubits_checked": len(ids), "checks": col.evaluations, "failures": len(col.failures)}
     return col, sample, []
 
@@ -508,16 +533,25 @@ def enumerate_cases(tier, seed):
                            "initial data state cycling through all 2^d computational states and the empty container; "
                            "26 Surface-17 sub-chains with one seeded rounds list each")
     else:
-        # full product rounds lists x all computational data states for d = 2, 3, 4; d = 5: every rounds list x 6 states
+        # d = 2, 3: full product (every rounds list) x (every computational data state + the empty container)
+        # d = 4:    every rounds list x 8 states, and every one of the 16 states (+ empty) x every list of length <= 2
+        # d = 5:    every rounds list x 4 states, and every one of the 32 states (+ empty) x every list of length 1
+        short_lists = {4: rounds_lists(range(0, 6), 2), 5: rounds_lists(range(0, 6), 1)}
         for d in range(2, 6):
-            states = [None] + all_states(d)
-            if d == 5:
+            every = [None] + all_states(d)
+            if d <= 3:
+                plan = [(base_lists, every)]
+            else:
                 pool = all_states(d)
-                states = [None, "0" * d, "1" * d, "01010", "10101"] + [pool[rng.randrange(len(pool))] for _ in range(3)]
-            for rl in base_lists:
-                for st in states:
-                    cases.append({"kind": "experiment", "description": {"kind": "chain", "distance": d, "refocusing": True},
-                                  "rounds": rl, "initial_state": {"data": st}})
+                fixed = [None, "0" * d, "1" * d, ("01" * d)[:d]]
+                if d == 4:
+                    fixed = fixed + [("10" * d)[:d]] + [pool[rng.randrange(len(pool))] for _ in range(3)]
+                plan = [(base_lists, fixed), (short_lists[d], every)]
+            for lists, states in plan:
+                for rl in lists:
+                    for st in states:
+                        cases.append({"kind": "experiment", "description": {"kind": "chain", "distance": d, "refocusing": True},
+                                      "rounds": rl, "initial_state": {"data": st}})
         # longer lists / larger counts (seeded): length 4..5 with values <= 8, distances 2..4
         longer = []
         for _ in range(160):
@@ -542,9 +576,11 @@ def enumerate_cases(tier, seed):
                         cases.append({"kind": "experiment", "description": {"kind": "s17", "distance": d, "start": start,
                                                                            "refocusing": bool(rng.randrange(2)), "reverse": rev},
                                       "rounds": rl, "initial_state": {"data": rng.choice(all_states(d))}})
-        exhaustive_note = ("thorough: chain d in 2..4 x all 156 rounds lists x (all 2^d computational data states + empty container) exhaustively; "
-                           "d = 5 x all 156 lists x 8 states; 160 seeded lists of length 4..5 with values <= 8; refocusing off with ancilla "
-                           "initial states for all lists of length <= 2; all 26 Surface-17 sub-chains in both directions")
+        exhaustive_note = ("thorough: chain d in 2..3 x all 156 rounds lists (distinct values 0..5, length <= 3, every order) x (all 2^d "
+                           "computational data states + empty container) exhaustively; d = 4: all 156 lists x 8 states and all 16 states x "
+                           "all lists of length <= 2; d = 5: all 156 lists x 4 states and all 32 states x all lists of length 1; 160 seeded "
+                           "lists of length 4..5 with values <= 8 (d 2..4); refocusing off with ancilla initial states for all lists of "
+                           "length <= 2 (d 2..4); all 26 Surface-17 sub-chains in both directions (all lists of length <= 2 for d <= 3, 12 seeded lists for d >= 4)")
     # stand-alone calibration constructor
     for ctype in ("QUBIT", "QUTRIT"):
         for nq in range(1, 10 if tier == "thorough" else 6):
@@ -585,7 +621,7 @@ STAND_INS = [
     ("heralded", FN_CIRCUIT + " vs get_heralded_cycle_acquisition_indices", "index of block k's 'heralded' acquisition == kernel heralded index for rounds[k]"),
     ("parity", FN_CIRCUIT + " vs get_stabilizer_and_projected_cycle_acquisition_indices", "ordered indices of block k's 'parity' acquisitions == kernel stabilizer-and-projected indices for rounds[k] (rounds[k] >= 1)"),
     ("projected", FN_CIRCUIT + " vs get_projected_cycle_acquisition_indices", "index of block k's last 'parity' acquisition == kernel projected index (rounds[k] >= 1)"),
-    ("zero-round", FN_CIRCUIT + " vs kernel", "0-round block: exactly one non-heralded ancilla acquisition in the circuit, kernel reports [] for stabilizer/projected"),
+    ("zero-round", FN_CIRCUIT + " vs kernel", "0-round block: exactly one more ancilla acquisition in the circuit (tag 'final', index heralded + 1), kernel reports [] for stabilizer/projected"),
     ("calibration-heralded", FN_CIRCUIT + " vs get_heralded_calibration_acquisition_indices", "index of calibration point s's 'heralded' acquisition == kernel index, s in 0..2"),
     ("calibration-final", FN_CIRCUIT + " vs get_projected_calibration_acquisition_indices", "index of calibration point s's 'final' acquisition == kernel index, s in 0..2"),
     ("calibration-state", FN_CALIB, "pulses on the qubit between heralded and final acquisition of point s == preparation of state s"),
@@ -614,6 +650,7 @@ def run(args):
     best = {}
     data_agree = {"all_rounds_le_1": [0, 0], "some_round_ge_2": [0, 0]}
     results = [None] * len(uniq)
+    all_samples = []
     ctx = multiprocessing.get_context("fork")
     with ctx.Pool(procs) as pool:
         for i, out in zip(order, pool.imap(worker, [uniq[i] for i in order], chunksize=1)):
@@ -631,8 +668,7 @@ def run(args):
             per_clause[k] = per_clause.get(k, 0) + v
         if nontrivial(c):
             res.distinct.add(case_id(c))
-        if len(res.samples) < 8 and (len(res.samples) % 2 == 0 or c["kind"] == "calibration" or 0 in c.get("rounds", [])):
-            res.samples.append(out["sample"])
+        all_samples.append(out["sample"])
         for f in out["failures"]:
             sz = witness_size(c)
             if f["key"] not in best or sz < best[f["key"]][0]:
@@ -642,6 +678,9 @@ def run(args):
             for di in out["data_info"]:
                 data_agree[bucket][0] += 1
                 data_agree[bucket][1] += 1 if di["agree"] else 0
+    if all_samples:
+        step = max(1, len(all_samples) // 7)
+        res.samples = all_samples[::step][:7] + [all_samples[-1]]
     for key in sorted(best):
         f = best[key][1]
         res.fail(f["key"], f["clause"], f["function"], f["witness"], f["observed"], f["required"], f["replay_args"])
@@ -679,16 +718,11 @@ def replay(path):
     if not out["ok"]:
         print("input cannot be built / evaluated:", out["error"])
         print(out.get("trace", ""))
-        still = key is None or "harness" in key
-        if still:
-            print(f"VIOLATION property={PROP} replay={path}")
-            return 1
-        print("(recorded failure key not reproduced: the input no longer builds)")
         print(f"VIOLATION property={PROP} replay={path}")
         return 1
     keys = sorted({f["key"] for f in out["failures"]})
     print(f"evaluations on this input: {out['evaluations']}; failing clause classes now: {keys}")
-    hit = [f for f in out["failures"] if key is None or f["key"] == key]
+    hit = [f for f in out["failures"] if key is None or f["key"] == key or key in f.get("consequences", [])]
     for f in hit[:3]:
         print(json.dumps({"key": f["key"], "clause": f["clause"], "witness": f["witness"], "observed": f["observed"], "required": f["required"]},
                          indent=1, default=str))
